@@ -37,6 +37,10 @@ def run(ctx):
                   'COVER')
     from mstatic.rules import shared as _sh
     _sh.refresh_covers_unfinished(ctx, r6)
+    r8 = ctx.rule('R8', 'the cascade over sub-workflows finds them for an '
+                  'administrator acting on another project\'s execution '
+                  '(shared with C11.R9)', 'dataflow')
+    _sh.admin_context_lists_all_projects(ctx, r8)
     from mstatic.rules import completion
     r7 = ctx.rule('R7', 'the backlog is restored completely and emptied on '
                   'resume', 'DT')
